@@ -55,7 +55,26 @@ EXPLANATION = (
     'the kernel one element type and no cast wraps an id into the admissible '
     'range; (D5.out-dtype) element-type provenance of the out= buffer of every '
     'float-valued ufunc: floating on every path, never the dtype of an '
-    'argument the contract leaves open. The information-theoretic identities '
+    'argument the contract leaves open. Added in the fifth hardening wave: '
+    '(D5.mask) the mask of every guarded division / logarithm is the non-zero '
+    'set of exactly its divisor / argument (same array expression, same unit '
+    'axes); (D10.rejections) every raise / assert whose condition is a function '
+    'of the inputs contradicts a fact that holds for all admissible inputs '
+    '(equal shapes, non-negative probabilities and weights, at least two '
+    'states, one table shape per trajectory) - decided by enumerating the sign '
+    '/ interval regions of the compared quantities; (D7.axis) the relative '
+    'entropy sums over the last axis for 1-D and 2-D input; (D7.normalise) a '
+    'rebinding of the distribution before the entropy sum is a copy or p / '
+    'sum(p); (D6.pooled) the running total is (re)started only while none '
+    'exists, and the normalisation runs exactly under the normalize flag; '
+    '(D6.unit-axis) a 1-D trajectory gets a TRAILING unit axis and only when it '
+    'is 1-D; (D9.defaults/.ccn/.term/.axes) weighted_mi: default state counts '
+    'only when none are given, normalisation flag and argument roles, the '
+    'summand p log(p/q) with one array as multiplier and numerator, and a '
+    'symbolic-shape interpretation over the independent extents observations / '
+    'features / states / state pairs (element-wise operands, matrix-product '
+    'contraction, index variables, bincount weights, reduced axis, result '
+    'shape). The information-theoretic identities '
     'themselves and rounding-level deviations from them are not decided.')
 
 
@@ -124,9 +143,11 @@ def _passthrough(v):
     return None
 
 
-def _origins(fi, name, at, memo, stack):
+def _origins(fi, name, at, memo, stack, pt=None):
     """Set of parameters `name` may hold at `at` (None: some definition is
-    not a value-preserving function of a parameter)."""
+    not a value-preserving function of a parameter).  `pt`: what counts as
+    value preserving (default _passthrough)."""
+    pt = pt or _passthrough
     out = set()
     for site in fi.rd.defs_at(at, name):
         if site == 'PARAM':
@@ -142,8 +163,8 @@ def _origins(fi, name, at, memo, stack):
             v = fi.def_value(site, name)
             r = set() if v is not None else None
             for alt in ([v.body, v.orelse] if isinstance(v, ast.IfExp) else [v]) if v is not None else []:
-                inner = _passthrough(alt)
-                o = _origins(fi, inner.id, site, memo, stack) if inner is not None else None
+                inner = pt(alt)
+                o = _origins(fi, inner.id, site, memo, stack, pt) if inner is not None else None
                 if o is None:
                     r = None
                     break
@@ -156,10 +177,10 @@ def _origins(fi, name, at, memo, stack):
     return out
 
 
-def _origin(fi, name, at):
+def _origin(fi, name, at, pt=None):
     """The parameter whose (validated / reshaped / re-typed / copied) value
     the local `name` holds at statement `at` on EVERY path, else None."""
-    out = _origins(fi, name, at, {}, set())
+    out = _origins(fi, name, at, {}, set(), pt)
     return next(iter(out)) if out is not None and len(out) == 1 else None
 
 
@@ -1378,11 +1399,55 @@ def d6_joint_counts(ck, table_verdict=None):
         ck.bad(rule_p, mod, plain[0] if plain else mic[0], G, '; '.join(u(s) for s in plain) or POOL,
                'the counts of the trajectories are never added: `%s` is only ever (re)bound to the counts of one trajectory, '
                'so the MI is computed from the last trajectory alone instead of the pooled counts' % POOL)
+    # ---- the (re)binding of the running total to ONE trajectory's table is confined to the first trajectory
+    loops = _enclosing_loops(mod, jst)
+    idx0 = {L.target.elts[0].id for L in loops if isinstance(L.target, (ast.Tuple, ast.List)) and len(L.target.elts) == 2
+            and isinstance(L.target.elts[0], ast.Name) and isinstance(L.iter, ast.Call) and call_name(L.iter) == 'enumerate'
+            and len(L.iter.args) == 1 and not L.iter.keywords}
+
+    def no_total_yet(a):
+        """True: the atom says that no running total exists yet (first
+        trajectory); False: that one exists; None: it says something else."""
+        if isinstance(a, Cmp):
+            if a.op in (ast.Is, ast.IsNot, ast.Eq, ast.NotEq) and u(a.lhs) == POOL and _is_const(a.rhs, None):
+                return a.op in (ast.Is, ast.Eq)
+            for x, k, op in ((a.lhs, a.rhs, a.op), (a.rhs, a.lhs, _FLIP_OP.get(a.op))):
+                if isinstance(x, ast.Name) and x.id in idx0 and type(const_value(k)) is int and op in _NUM_HOLDS:
+                    h = [_NUM_HOLDS[op](i, const_value(k)) for i in range(0, 4)]
+                    if h[0] and not any(h[1:]):
+                        return True
+                    if not h[0] and all(h[1:]):
+                        return False
+            return None
+        e = a[1]
+        if isinstance(e, ast.Call) and call_name(e) == 'hasattr' and len(e.args) == 2 and u(e.args[0]) == POOL:
+            return not a[2]
+        return None
+    for site in plain:
+        if not any(fim._within(site, L) for L in loops):
+            continue                      # bound before the loop: nothing to overwrite
+        gs = [no_total_yet(a) for a in _atoms(fim, site, stop=(POOL,))]
+        if True in gs:
+            ck.ok(rule_p, mod, site, u(site), 'the total starts from one trajectory\'s table only while no total exists')
+        elif False in gs:
+            ck.bad(rule_p, mod, site, G, 'the running total is (re)bound to one trajectory\'s counts when a total already exists',
+                   '`%s` executes under a condition that says a running total ALREADY exists: the counts pooled so far are replaced by '
+                   'those of the current trajectory (and the branch that adds is entered while there is no total yet)' % u(site)[:80])
+        else:
+            ck.missing(rule_p, 'condition under which `%s` starts the running total inside the counting loop' % u(site)[:80])
+    # ---- a table is rejected only when its shape differs from the running total's
+    cnames = sorted({t.id for s in walk_local(fm) if isinstance(s, ast.Assign) and s.value is jc_call
+                     for t in s.targets if isinstance(t, ast.Name)})
+    if cnames:
+        sfacts = [_Fact('scalar', '%s.shape' % POOL, ast.Eq, '%s.shape' % t) for t in cnames]
+        _check_rejections(ck, 'C18.D10.rejections', mod, fm, fim, sfacts, keep=(POOL,) + tuple(cnames),
+                          extra=lambda a: None if no_total_yet(a) is None else 'partial')
     cc = [c for c in calls_in(fm) if (call_name(c) or '').split('.')[-1] == 'channel_capacity_normalization']
     if len(cc) != 1 or len(cc[0].args) != 3 or cc[0].keywords:
         ck.missing(rule_p, 'one call channel_capacity_normalization(mi, n_x, n_y) in mi_matrix')
         return
     cst = fim.stmt(cc[0])
+    _normalize_flag(ck, rule_p + '.normalize-flag', mod, fm, fim, G, cc[0], 4)
     a0 = cc[0].args[0]
     from_mi = isinstance(a0, ast.Name) and fim.resolve(a0) is mic[0]
     got = [u(x) for x in cc[0].args[1:]]
@@ -1392,6 +1457,61 @@ def d6_joint_counts(ck, table_verdict=None):
         stable = all(fim.rd.defs_at(cst, p) == {'PARAM'} for p in (MX, MY))
         ck.check(got == [MX, MY] and stable, rule_p, mod, cc[0], G, u(cc[0]), 'normalised with (mi, n_x, n_y)',
                  'channel_capacity_normalization(mi, %s, %s) expected: the state counts of the first side go with axis 0 of mi' % (MX, MY))
+
+
+def d6_unit_axis(ck):
+    """The kernel takes 2-D arrays (frames x features).  joint_counts lifts a
+    1-D trajectory (one feature) by adding a unit axis: that axis must be the
+    TRAILING one (the frames stay on axis 0 - a leading unit axis turns n
+    frames of one feature into one frame of n features, which the kernel's
+    length check rejects or counts as a single observation) and it may only
+    be added to an array that has exactly one dimension (added to a 2-D
+    array it makes it 3-D, left out for a 1-D array the kernel receives a
+    vector: both raise for every input)."""
+    rule = 'C18.D6.joint-counts.unit-axis'
+    F = 'joint_counts'
+    mod = ck.repo.mod(MI)
+    fn = mod.func(F)
+    fi = _fi(mod, fn)
+    ids = params(fn)[:2]
+    for s in walk_local(fn):
+        for tname, val in _bindings(s):
+            if not isinstance(val, ast.Subscript) or not _unit_index(val.slice):
+                continue
+            items = _index_items(val.slice)
+            if not any(_is_const(i, None) for i in items) or not isinstance(val.value, ast.Name):
+                continue
+            src = _origin(fi, val.value.id, s)
+            if src not in ids or sum(1 for i in items if _is_const(i, None)) != 1:
+                continue
+            # ---- where the unit axis goes
+            if _is_const(items[-1], None) and len(items) > 1:
+                ck.ok(rule, mod, s, u(s), 'the unit axis is the trailing one: frames stay on axis 0')
+            elif _is_const(items[0], None):
+                ck.bad(rule, mod, s, F, u(s), 'a 1-D trajectory of n frames must become an (n, 1) array (frames x one feature); `%s` puts the '
+                       'unit axis FIRST: one frame with n features' % u(val))
+                continue
+            else:
+                ck.missing(rule, 'position of the unit axis in `%s`' % u(s)[:80])
+                continue
+            # ---- only for 1-D arrays
+            want = 'len(%s.shape)' % val.value.id
+            verdicts = []
+            for a in _atoms(fi, s, stop=tuple(ids)):
+                if not isinstance(a, Cmp) or a.op not in _NUM_HOLDS:
+                    continue
+                for x, k, op in ((a.lhs, a.rhs, a.op), (a.rhs, a.lhs, _FLIP_OP[a.op])):
+                    if _shape_text(x) == want and type(_num(k)) is int:
+                        h = {n: _NUM_HOLDS[op](n, _num(k)) for n in (1, 2)}
+                        verdicts.append((h[1] and not h[2], a))
+            if not verdicts:
+                ck.missing(rule, 'the test of the number of dimensions of `%s` that guards `%s`' % (val.value.id, u(s)[:60]))
+            elif all(v for v, _ in verdicts):
+                ck.ok(rule, mod, s, '%s under %r' % (u(s), verdicts[0][1]), 'the unit axis is added to 1-D arrays only')
+            else:
+                a = [a for v, a in verdicts if not v][0]
+                ck.bad(rule, mod, s, F, '%s under %r' % (u(s), a), 'the unit axis must be added exactly when the array is 1-D; under `%r` a '
+                       '2-D trajectory (frames x features) becomes 3-D and/or a 1-D one stays a vector: the 2-D kernel rejects both' % a)
 
 
 # ---------------------------------------------------------------------------
@@ -1406,6 +1526,177 @@ def _unwrap_where(idx):
         if isinstance(idx.func, ast.Attribute) and idx.func.attr == 'nonzero' and not idx.args:
             return idx.func.value
     return idx
+
+
+_UNKI = type('UnknownInt', (), {'__repr__': lambda self: '<unknown>'})()
+
+
+def _ndim_value(fi, e, at, arrays, k, depth=4):
+    """Value of the small integer expression / test `e` (evaluated at
+    statement `at`) under the hypothesis that every array in `arrays` (names of
+    parameters) has k dimensions; _UNKI when it depends on anything else.  A
+    name is followed through the straight-line / if-else code that assigns it
+    (_small_int_at).  Only literals, len(A.shape) / A.ndim, + - comparisons,
+    not/and/or and conditional expressions are evaluated - the rule's own
+    arithmetic on the abstract value `k`, nothing of the analysed code runs."""
+    def ev(x):
+        if isinstance(x, ast.Constant):
+            return x.value if type(x.value) in (int, bool) else _UNKI
+        if isinstance(x, ast.Call) and call_name(x) == 'len' and len(x.args) == 1 and not x.keywords and \
+                isinstance(x.args[0], ast.Attribute) and x.args[0].attr == 'shape' and isinstance(x.args[0].value, ast.Name) \
+                and x.args[0].value.id in arrays:
+            return k
+        if isinstance(x, ast.Name):
+            return _small_int_at(fi, x.id, at, arrays, k, depth - 1) if depth > 0 and x.id in fi.rd.locals and x.id not in arrays else _UNKI
+        if isinstance(x, ast.UnaryOp):
+            v = ev(x.operand)
+            if v is _UNKI:
+                return v
+            return -v if isinstance(x.op, ast.USub) else (not v) if isinstance(x.op, ast.Not) else v if isinstance(x.op, ast.UAdd) else _UNKI
+        if isinstance(x, ast.BinOp) and isinstance(x.op, (ast.Add, ast.Sub)):
+            a, b = ev(x.left), ev(x.right)
+            if a is _UNKI or b is _UNKI:
+                return _UNKI
+            return a + b if isinstance(x.op, ast.Add) else a - b
+        if isinstance(x, ast.Compare) and len(x.ops) == 1 and type(x.ops[0]) in _NUM_HOLDS:
+            a, b = ev(x.left), ev(x.comparators[0])
+            return _UNKI if a is _UNKI or b is _UNKI else _NUM_HOLDS[type(x.ops[0])](a, b)
+        if isinstance(x, ast.BoolOp):
+            vs = [ev(v) for v in x.values]
+            if any(v is _UNKI for v in vs):
+                return _UNKI
+            return all(vs) if isinstance(x.op, ast.And) else any(vs)
+        if isinstance(x, ast.IfExp):
+            t = ev(x.test)
+            return _UNKI if t is _UNKI else ev(x.body if t else x.orelse)
+        return _UNKI
+    alts = _input_exprs(fi, e, at, keep=tuple(n.id for n in ast.walk(e) if isinstance(n, ast.Name) and n.id in fi.rd.locals
+                                              and len(fi.rd.defs_at(at, n.id)) > 1))
+    if len(alts) != 1:
+        return _UNKI
+    x = _ShapeSpelling().visit(copy.deepcopy(alts[0]))
+    return ev(x)
+
+
+def _small_int_at(fi, name, at, arrays, k, depth=3):
+    """Value of the local `name` when control reaches statement `at`, for
+    k-dimensional `arrays`: the function body is followed in order; an `if`
+    whose test is decided by k takes that arm, an undecided one must give the
+    same value on both arms; a loop / try that assigns the name gives
+    _UNKI.  None: `at` is not reached for this k."""
+    def stores(s):
+        return any(isinstance(n, ast.Name) and n.id == name and isinstance(n.ctx, ast.Store) for n in ast.walk(s))
+
+    def run(stmts, val):
+        for s in stmts:
+            if s is at:
+                return val, True
+            inside = fi._within(at, s)
+            if isinstance(s, (ast.Assign, ast.AnnAssign)) and stores(s):
+                v = fi.def_value(s, name)
+                val = _ndim_value(fi, v, s, arrays, k, depth) if v is not None else _UNKI
+            elif isinstance(s, ast.If):
+                t = _ndim_value(fi, s.test, s, arrays, k, depth)
+                arms = [s.body, s.orelse] if t is _UNKI else [s.body] if t else [s.orelse]
+                if inside:
+                    arm = s.body if any(x is at or fi._within(at, x) for x in s.body) else s.orelse
+                    if not any(arm is a for a in arms):
+                        return None, True             # `at` sits in the arm that is not taken for this k
+                    return run(arm, val)
+                res = [run(a, val)[0] for a in arms]
+                val = res[0] if all(r is not _UNKI and r == res[0] for r in res) else _UNKI
+            elif isinstance(s, (ast.With, ast.AsyncWith)):
+                val, hit = run(s.body, val)
+                if hit:
+                    return val, True
+            elif inside:
+                return _UNKI, True
+            elif stores(s):
+                val = _UNKI
+        return val, False
+    val, hit = run(fi.fn.body, _UNKI)
+    return val if hit else _UNKI
+
+
+def _entropy_rebindings(ck, rule, mod, fn, fi, F, p, at):
+    """The entropy formula is decided over the NAME of the distribution; every
+    rebinding of that name that reaches the formula must therefore keep the
+    distribution: a copy / re-typed copy, or the normalisation `p / p.sum()`
+    (the identity on a distribution, which sums to 1).  The reciprocal
+    `p.sum() / p` is recognised as a wrong content."""
+    def total_of(e):
+        while isinstance(e, ast.Call) and call_name(e) in ('float', 'np.float64') and len(e.args) == 1 and not e.keywords:
+            e = e.args[0]
+        if isinstance(e, ast.Call) and isinstance(e.func, ast.Attribute) and e.func.attr == 'sum' and not e.args and not e.keywords:
+            n = _same_shape_passthrough(e.func.value)
+            return n is not None and n.id == p
+        return False
+
+    def is_p(e):
+        n = _same_shape_passthrough(e)
+        return n is not None and n.id == p
+    for site in sorted((x for x in fi.rd.defs_at(at, p) if x not in ('PARAM', 'UNBOUND')), key=lambda x: getattr(x, 'lineno', 0)):
+        if isinstance(site, ast.AugAssign) and isinstance(site.target, ast.Name):
+            v = canon(fi.expand(site.value, stop=(p,)))
+            if isinstance(site.op, ast.Div) and total_of(v):
+                ck.ok(rule, mod, site, u(site), 'normalised by its sum')
+            else:
+                ck.missing(rule, 'in-place update `%s` of the distribution before the entropy sum' % u(site)[:80])
+            continue
+        v = fi.def_value(site, p) if isinstance(site, (ast.Assign, ast.AnnAssign)) else None
+        if v is None:
+            ck.missing(rule, 'definition of `%s` at %s that reaches the entropy sum' % (p, mod.loc(site)))
+            continue
+        v = canon(fi.expand(v, stop=(p,)))
+        if is_p(v):
+            ck.ok(rule, mod, site, u(site), 'a copy of the distribution')
+            continue
+        num = den = None
+        if isinstance(v, ast.BinOp) and isinstance(v.op, ast.Div):
+            num, den = v.left, v.right
+        elif isinstance(v, ast.Call) and call_name(v) in ('np.divide', 'np.true_divide') and len(v.args) == 2 and not v.keywords:
+            num, den = v.args
+        if num is not None and is_p(num) and total_of(den):
+            ck.ok(rule, mod, site, u(site), 'the distribution divided by its sum (the identity on a distribution)')
+        elif num is not None and total_of(num) and is_p(den):
+            ck.bad(rule, mod, site, F, u(site), 'the distribution is replaced by `sum / p`, the reciprocal of the normalisation `p / sum`: '
+                   'the entropy is then computed from 1/p_i instead of p_i')
+        else:
+            ck.missing(rule, 'rebinding `%s` of the distribution before the entropy sum is neither a copy nor `p / p.sum()`' % u(site)[:80])
+
+
+def _kl_sum_axis(ck, rule, mod, fn, fi, F, L, P, Q):
+    """The divergence of one distribution is the sum of its terms over the
+    VALUES of that distribution: the last axis of the term array (axis 0 of a
+    1-D P, axis 1 of a 2-D P whose rows are distributions).  A sum over the
+    other axis adds up one term of each distribution - such a partial sum
+    can be negative - and an axis beyond the array's rank raises for every
+    input.  Decided for k = 1 and k = 2 dimensions by following the value of
+    the axis expression through the code that selects it."""
+    sums = [c for c in calls_in(fn) if isinstance(c.func, ast.Attribute) and c.func.attr == 'sum'
+            and isinstance(c.func.value, ast.Name) and c.func.value.id == L]
+    for c in sums:
+        ax = kwarg(c, 'axis') or (c.args[0] if c.args and not isinstance(c.args[0], ast.Starred) else None)
+        st = fi.stmt(c)
+        if ax is None or _is_const(ax, None):
+            ck.ok(rule, mod, c, u(c), 'all terms are summed')
+            continue
+        got = {}
+        for k in (1, 2):
+            got[k] = _ndim_value(fi, ax, st, (P, Q), k)
+        con = '%s with axis = %s' % (u(c), ', '.join('%s for %d-D input' % (got[k], k) for k in (1, 2)))
+        if any(v is _UNKI or v is None or type(v) is not int for v in got.values()):
+            ck.missing(rule, 'axis of the summation `%s` of the relative-entropy terms as a function of the rank of %s' % (u(c)[:80], P))
+            continue
+        wrong = [k for k in (1, 2) if not (-k <= got[k] < k) or got[k] % k != k - 1]
+        ck.check(not wrong, rule, mod, c, F, con, 'the terms of one distribution (last axis) are summed',
+                 'the terms p log(p/q) must be summed over the values of each distribution, i.e. the LAST axis of `%s`; for %s the '
+                 'sum runs over axis %s: %s' % (L, ' and '.join('%d-D input' % k for k in wrong), ', '.join(str(got[k]) for k in wrong),
+                                               'an axis the array does not have (AxisError for every such input)'
+                                               if all(not (-k <= got[k] < k) for k in wrong) else
+                                               'the axis that enumerates the distributions - one term of every distribution is added up, a '
+                                               'partial sum that can be negative and is not zero for equal distributions only'))
+
 
 
 def d7_entropy(ck):
@@ -1459,6 +1750,7 @@ def d7_entropy(ck):
                 else:
                     ck.check(all(fi.cfg.dominates(s, fi.stmt(c)) for c in sums), rule, mod, s, F, '%s before %s' % (u(s)[:80], u(sums[0])),
                              'cells are zeroed before the terms are summed', 'the undefined cells must be zeroed BEFORE the terms are summed')
+            _kl_sum_axis(ck, rule + '.axis', mod, fn, fi, F, L, P, Q)
     F = 'shannon_entropy'
     fs = mod.func(F)
     ck.analysed(mod, fs)
@@ -1469,6 +1761,7 @@ def d7_entropy(ck):
         ck.missing(rule, 'shannon_entropy returns one value')
         return
     p = params(fs)[0]
+    _entropy_rebindings(ck, rule + '.normalise', mod, fs, fis, F, p, rstm[0])
     val = _xp(fis, rets[0], rstm[0], stop=(p,))
     pats = []
     for mask in ('0 < %s' % p, '%s != 0' % p):
@@ -2319,6 +2612,432 @@ def d5_out_dtype(ck):
     ck.floor(rule, n, 6, 'float-valued ufunc calls with out= in info_theory')
 
 
+# ---- the mask of a masked division / logarithm is the defined set of its operand ----
+
+_CMP_FUNCS = {'np.not_equal': ast.NotEq, 'np.equal': ast.Eq, 'np.greater': ast.Gt, 'np.greater_equal': ast.GtE,
+              'np.less': ast.Lt, 'np.less_equal': ast.LtE}
+_FLIP_OP = {ast.Lt: ast.Gt, ast.Gt: ast.Lt, ast.LtE: ast.GtE, ast.GtE: ast.LtE, ast.Eq: ast.Eq, ast.NotEq: ast.NotEq}
+_OP_TXT = {ast.Lt: '<', ast.Gt: '>', ast.LtE: '<=', ast.GtE: '>=', ast.Eq: '==', ast.NotEq: '!='}
+
+
+def _unit_index(sl):
+    return all(_is_const(i, None) or _is_const(i, Ellipsis) or _full_slice(i) for i in _index_items(sl))
+
+
+def _elementwise_cmp(e):
+    """patterns.Cmp of an element-wise comparison in any of its spellings:
+    `a op b`, `np.not_equal(a, b)` ..., `~(a op b)`, `np.logical_not(a op b)`,
+    and `(a op b)[..., None]` == `a[..., None] op b[..., None]` (adding unit
+    axes commutes with an element-wise operation).  None for anything else."""
+    if isinstance(e, ast.Compare) and len(e.ops) == 1 and type(e.ops[0]) in _FLIP_OP:
+        return Cmp(e.left, type(e.ops[0]), e.comparators[0])
+    if isinstance(e, ast.UnaryOp) and isinstance(e.op, (ast.Invert, ast.Not)):
+        c = _elementwise_cmp(e.operand)
+        return c.negated() if c is not None else None
+    if isinstance(e, ast.Call):
+        cn = (call_name(e) or '').replace('numpy.', 'np.')
+        if cn in _CMP_FUNCS and len(e.args) == 2 and not e.keywords and not any(isinstance(a, ast.Starred) for a in e.args):
+            return Cmp(e.args[0], _CMP_FUNCS[cn], e.args[1])
+        if cn == 'np.logical_not' and len(e.args) == 1 and not e.keywords:
+            c = _elementwise_cmp(e.args[0])
+            return c.negated() if c is not None else None
+    if isinstance(e, ast.Subscript) and _unit_index(e.slice):
+        c = _elementwise_cmp(e.value)
+        if c is not None:
+            ix = lambda x: x if isinstance(x, ast.Constant) else ast.Subscript(value=x, slice=e.slice, ctx=ast.Load())
+            return Cmp(ix(c.lhs), c.op, ix(c.rhs))
+    return None
+
+
+def _against_zero(c):
+    """(X, op) for an element-wise comparison `X op 0` / `0 op' X`, else None."""
+    z = lambda x: type(const_value(x)) in (int, float) and const_value(x) == 0
+    if z(c.rhs) and not z(c.lhs):
+        return c.lhs, c.op
+    if z(c.lhs) and not z(c.rhs):
+        return c.rhs, _FLIP_OP[c.op]
+    return None
+
+
+_MASKED_OPERAND = {'np.divide': 1, 'np.true_divide': 1, 'np.log': 0, 'np.log2': 0, 'np.log10': 0}
+
+
+def d5_mask_content(ck):
+    """`np.divide(a, d, where=m, out=zeros)` is the guarded division of the
+    property (x/d where defined, 0 elsewhere) only if m is exactly the set
+    where d is non-zero - element for element, i.e. the mask is a comparison
+    of THE SAME array expression as the divisor (same unit axes, so that it
+    broadcasts the same way) with zero, `!= 0` or `> 0` (counts and
+    probabilities are non-negative).  A mask that admits d == 0 writes NaN /
+    inf into the distribution, a mask that is empty or inverted leaves the
+    zeros of the buffer: every probability, hence every MI, is 0.  Likewise
+    `np.log(x, where=m, out=...)`: m is the set where x is non-zero."""
+    rule = 'C18.D5.mask'
+    n = 0
+    for rel in (MI, EN):
+        mod = ck.repo.mod(rel)
+        for q, fn in list(mod.functions.items()):
+            calls = [c for c in calls_in(fn) if kwarg(c, 'where') is not None
+                     and (call_name(c) or '').replace('numpy.', 'np.') in _MASKED_OPERAND]
+            if not calls:
+                continue
+            fi = _fi(mod, fn)
+            ck.analysed(mod, fn)
+            for c in sorted(calls, key=lambda c: (getattr(c, 'lineno', 0), getattr(c, 'col_offset', 0))):
+                cn = (call_name(c) or '').replace('numpy.', 'np.')
+                k = _MASKED_OPERAND[cn]
+                if len(c.args) <= k or any(isinstance(a, ast.Starred) for a in c.args):
+                    ck.missing(rule, 'operands of the masked %s at %s' % (cn, mod.loc(c)))
+                    continue
+                n += 1
+                role = 'divisor' if k == 1 else 'argument'
+                D = canon(fi.expand(c.args[k]))
+                m = canon(fi.expand(kwarg(c, 'where')))
+                cmp_ = _elementwise_cmp(m)
+                az = _against_zero(cmp_) if cmp_ is not None else None
+                con = '%s(..., where=%s) with %s %s' % (cn, _cx(m)[:80], role, _cx(D)[:60])
+                if az is None:
+                    ck.missing(rule, 'mask of the masked %s at %s is not a comparison with zero: %s' % (cn, mod.loc(c), _cx(m)[:100]))
+                    continue
+                X, op = az
+                if _cx(X) == _cx(D):
+                    ck.check(op in (ast.NotEq, ast.Gt), rule, mod, c, q, con,
+                             'the mask is the set where the %s is non-zero' % role,
+                             'the mask of a guarded %s must select exactly the cells whose %s is non-zero (`%s != 0` / `> 0`); '
+                             '`%s %s 0` %s' % ('division' if k == 1 else 'logarithm', role, _cx(D)[:60], _cx(D)[:60], _OP_TXT[op],
+                                               'also selects cells where it is zero: 0/0 = NaN, x/0 = inf, log 0 = -inf enter the result'
+                                               if op in (ast.GtE, ast.LtE, ast.Eq) else
+                                               'selects no cell of a non-negative array: the zeros of the out= buffer are returned, every '
+                                               'probability (and so every MI entry) is 0'))
+                    continue
+                if isinstance(X, ast.Subscript) and isinstance(D, ast.Subscript) and _unit_index(X.slice) and _unit_index(D.slice) \
+                        and _cx(X.value) == _cx(D.value) and \
+                        sorted(u(i) for i in _index_items(X.slice)) == sorted(u(i) for i in _index_items(D.slice)):
+                    ck.bad(rule, mod, c, q, con, 'the mask compares `%s` but the %s is `%s`: the unit axes sit at different positions, so '
+                           'the mask broadcasts along other axes than the %s (shape error, or cells guarded by the total of another '
+                           'feature pair)' % (_cx(X)[:60], role, _cx(D)[:60], role))
+                    continue
+                ck.missing(rule, 'the mask of the masked %s at %s tests `%s`, which is not recognised as its %s `%s`' % (
+                    cn, mod.loc(c), _cx(X)[:80], role, _cx(D)[:80]))
+    ck.floor(rule, n, 6, 'masked divisions / logarithms in info_theory')
+
+
+
+# ---------------------------------------------------------------------------
+# D10 rejections: an argument check may only reject inputs outside the quantifier
+
+def _same_shape_passthrough(v):
+    """The Name whose array the value `v` still is, element for element and
+    with the SAME SHAPE (a copy, a re-typed copy, np.asarray): unlike
+    _passthrough no added unit axes and no validation helpers."""
+    while v is not None:
+        if isinstance(v, ast.Name):
+            return v
+        if isinstance(v, ast.Call) and not any(isinstance(a, ast.Starred) for a in v.args):
+            cn = call_name(v) or ''
+            if isinstance(v.func, ast.Attribute) and v.func.attr in ('astype', 'copy') and \
+                    not (isinstance(v.func.value, ast.Name) and v.func.value.id in _MODULE_ALIASES):
+                v = v.func.value
+                continue
+            if cn in ('np.asarray', 'np.array', 'np.ascontiguousarray', 'np.asanyarray', 'np.copy') and v.args:
+                v = v.args[0]
+                continue
+        return None
+    return None
+
+
+class _ShapeSpelling(ast.NodeTransformer):
+    """len(E) -> E.shape[0] (E an array, not itself a shape), E.ndim / np.ndim(E) -> len(E.shape), np.shape(E) -> E.shape."""
+
+    def visit_Call(self, node):
+        self.generic_visit(node)
+        cn = call_name(node)
+        if len(node.args) == 1 and not node.keywords and not isinstance(node.args[0], ast.Starred):
+            a = node.args[0]
+            if cn == 'len' and not (isinstance(a, ast.Attribute) and a.attr == 'shape') and \
+                    isinstance(a, (ast.Name, ast.Attribute)):
+                return ast.Subscript(value=ast.Attribute(value=a, attr='shape', ctx=ast.Load()), slice=ast.Constant(value=0), ctx=ast.Load())
+            if cn in ('np.ndim', 'numpy.ndim'):
+                return ast.Call(func=ast.Name(id='len', ctx=ast.Load()), args=[ast.Attribute(value=a, attr='shape', ctx=ast.Load())], keywords=[])
+            if cn in ('np.shape', 'numpy.shape'):
+                return ast.Attribute(value=a, attr='shape', ctx=ast.Load())
+        return node
+
+    def visit_Attribute(self, node):
+        self.generic_visit(node)
+        if node.attr == 'ndim' and isinstance(node.ctx, ast.Load):
+            return ast.Call(func=ast.Name(id='len', ctx=ast.Load()), args=[ast.Attribute(value=node.value, attr='shape', ctx=ast.Load())], keywords=[])
+        return node
+
+
+def _shape_text(e):
+    e = _ShapeSpelling().visit(copy.deepcopy(canon(e)))
+    ast.fix_missing_locations(e)
+    return u(e)
+
+
+def _input_exprs(fi, e, at, keep=()):
+    """The test `e`, evaluated at statement `at`, as a function of the
+    function's INPUTS: temporaries expanded; every local that on every path
+    holds a same-shape copy of a parameter spelled as that parameter.  A loop
+    variable that runs over a literal tuple of such names (`for M in (P, Q)`)
+    yields one alternative per element.  -> [expression]"""
+    ren = {}
+    for nm in fi.rd.locals:
+        if nm in keep:
+            continue
+        o = _origin(fi, nm, at, _same_shape_passthrough)
+        if o is not None:
+            ren[nm] = o
+    x = _xp(fi, e, at, stop=tuple(ren) + tuple(keep))
+    alts = [{}]
+    for n in ast.walk(x):
+        if isinstance(n, ast.Name) and n.id not in ren and n.id in fi.rd.locals and not any(n.id in a for a in alts):
+            defs = fi.rd.defs_at(at, n.id)
+            site = next(iter(defs)) if len(defs) == 1 else None
+            if isinstance(site, ast.For) and isinstance(site.target, ast.Name) and site.target.id == n.id and \
+                    isinstance(site.iter, (ast.Tuple, ast.List)) and site.iter.elts and \
+                    all(isinstance(el, ast.Name) for el in site.iter.elts):
+                els = [ren.get(el.id) or (_origin(fi, el.id, site, _same_shape_passthrough)) for el in site.iter.elts]
+                if all(els) and len(alts) == 1:
+                    alts = [dict(alts[0], **{n.id: o}) for o in els]
+    out = []
+    for a in alts:
+        m = dict(ren, **a)
+
+        class R(ast.NodeTransformer):
+            def visit_Name(self, n):
+                return ast.copy_location(ast.Name(id=m[n.id], ctx=n.ctx), n) if n.id in m else n
+        y = R().visit(copy.deepcopy(x))
+        ast.fix_missing_locations(y)
+        out.append(canon(y))
+    return out
+
+
+_COUNT_FORMS = ['len(np.where(_E)[0])', 'np.where(_E)[0].size', 'np.where(_E)[0].shape[0]', 'len(np.nonzero(_E)[0])',
+                'np.nonzero(_E)[0].size', 'np.nonzero(_E)[0].shape[0]', 'len(_E.nonzero()[0])', '_E.nonzero()[0].size',
+                '_E.nonzero()[0].shape[0]', 'np.count_nonzero(_E)', '_E.sum()']
+_NUM_HOLDS = {ast.Lt: lambda a, b: a < b, ast.LtE: lambda a, b: a <= b, ast.Gt: lambda a, b: a > b, ast.GtE: lambda a, b: a >= b,
+              ast.Eq: lambda a, b: a == b, ast.NotEq: lambda a, b: a != b}
+
+
+def _count_of(e):
+    """E when `e` is the number of cells of the element-wise comparison E that hold."""
+    for f in _COUNT_FORMS:
+        b = match(f, e)
+        if b is not None and _elementwise_cmp(b['_E']) is not None:
+            return b['_E']
+    return None
+
+
+def _num(x):
+    v = const_value(x)
+    return v if type(v) in (int, float) else None
+
+
+def _quantified(atom):
+    """Normal form of one atomic condition: ('scalar', lhs, op, rhs) |
+    ('all', lhs, op, rhs) | ('any', lhs, op, rhs) - the comparison holds for the
+    value / for all cells / for some cell - | ('const', bool) | None."""
+    if isinstance(atom, Cmp):
+        if atom.op not in _NUM_HOLDS:
+            return None
+        for cnt, k, op in ((atom.lhs, atom.rhs, atom.op), (atom.rhs, atom.lhs, _FLIP_OP[atom.op])):
+            E = _count_of(cnt)
+            if E is not None and type(_num(k)) is int:
+                h = [_NUM_HOLDS[op](n, _num(k)) for n in range(0, 6)]
+                c = _elementwise_cmp(E)
+                if all(h) or not any(h):
+                    return ('const', h[0])
+                if not h[0] and all(h[1:]):
+                    return ('any', c.lhs, c.op, c.rhs)
+                if h[0] and not any(h[1:]):
+                    c = c.negated()
+                    return ('all', c.lhs, c.op, c.rhs)
+                return None
+        return ('scalar', atom.lhs, atom.op, atom.rhs)
+    _k, e, pol = atom
+    if isinstance(e, ast.Call) and isinstance(e.func, ast.Attribute) and e.func.attr in ('all', 'any') and not e.args and not e.keywords:
+        c = _elementwise_cmp(e.func.value)
+        if c is None or c.op not in _NUM_HOLDS:
+            return None
+        q = e.func.attr
+        if not pol:
+            c, q = c.negated(), {'all': 'any', 'any': 'all'}[q]
+        return (q, c.lhs, c.op, c.rhs)
+    if isinstance(e, ast.Constant):
+        return ('const', bool(e.value) == pol)
+    return ('scalar', e, ast.NotEq if pol else ast.Eq, ast.Constant(value=0))
+
+
+class _Fact:
+    """`operand op other` holds for every admissible input (for every cell when quant == 'all')."""
+
+    def __init__(self, quant, operand, op, other, integer=False):
+        self.quant, self.op, self.integer = quant, op, integer
+        self.operand = _shape_text(ast.parse(operand, mode='eval').body)
+        self.other = other if type(other) in (int, float) else _shape_text(ast.parse(other, mode='eval').body)
+
+    def __repr__(self):
+        return '%s%s %s %s' % ('all ' if self.quant == 'all' else '', self.operand, _OP_TXT[self.op], self.other)
+
+
+def _relate(q, facts):
+    """'valid' (holds for every admissible input), 'invalid' (for none),
+    'partial' (for some), None (no fact speaks about these operands)."""
+    quant, lhs, op, rhs = q
+    for f in facts:
+        if (f.quant == 'scalar') != (quant == 'scalar'):
+            continue
+        for a, b, o in ((lhs, rhs, op), (rhs, lhs, _FLIP_OP[op])):
+            if _shape_text(a) != f.operand:
+                continue
+            if type(f.other) in (int, float):
+                k = _num(b)
+                if k is None or (f.integer and type(k) is not int):
+                    continue
+                ks = sorted({k, f.other})
+                if f.integer:
+                    dom = list(range(ks[0] - 1, ks[-1] + 2))
+                else:
+                    dom = [ks[0] - 1.0] + ks + [(ks[0] + ks[-1]) / 2.0] + [ks[-1] + 1.0]
+                Fs = {p for p in dom if _NUM_HOLDS[f.op](p, f.other)}
+                As = {p for p in dom if _NUM_HOLDS[o](p, k)}
+            else:
+                if _shape_text(b) != f.other:
+                    continue
+                dom = (-1, 0, 1)                 # sign of operand - other
+                Fs = {p for p in dom if _NUM_HOLDS[f.op](p, 0)}
+                As = {p for p in dom if _NUM_HOLDS[o](p, 0)}
+            if not (Fs & As):
+                return 'invalid'
+            if Fs <= As:
+                return 'valid'
+            return 'partial'
+    return None
+
+
+def _exit_conditions(fi, stmt, keep=()):
+    """[[atom]] - one list of atomic conditions (over the inputs) per way to
+    reach the exception exit `stmt` (a raise, or an assert that fails); None
+    for a condition that is not a conjunction."""
+    base = [[]]
+    for test, pol, owner in _facts(fi, stmt):
+        at = owner if not isinstance(owner, ast.Assert) else owner
+        alts = _input_exprs(fi, test, at, keep)
+        nxt = []
+        for e in alts:
+            cs = conjuncts(e, pol)
+            for b in base:
+                nxt.append(None if b is None or cs is None else b + cs)
+        base = nxt[:8]
+    if isinstance(stmt, ast.Assert):
+        tests = stmt.test.values if isinstance(stmt.test, ast.BoolOp) and isinstance(stmt.test.op, ast.And) else [stmt.test]
+        out = []
+        for t in tests:
+            for e in _input_exprs(fi, t, stmt, keep):
+                cs = conjuncts(e, False)
+                for b in base:
+                    out.append(None if b is None or cs is None else b + cs)
+        return out
+    return base
+
+
+def _check_rejections(ck, rule, mod, fn, fi, facts, keep=(), extra=None):
+    """Every raise / failing assert whose condition is a function of the
+    inputs must be a rejection of an input the contract excludes: some atomic
+    condition on the way to it contradicts a fact that holds for every
+    admissible input.  If every condition holds for all or for some admissible
+    inputs the check rejects valid data (VIOLATION); conditions the table
+    cannot relate to a fact leave the exit undecided (incomplete).  Exits
+    whose conditions read values computed inside the function (internal
+    consistency assertions) are not argument checks and are left alone."""
+    F = mod.qualname(fn)
+    P = set(params(fn))
+    from ..match import _NEUTRAL
+    handlers = [h for t in ast.walk(fn) if isinstance(t, ast.Try) for h in t.handlers]
+    n = 0
+    for s in walk_local(fn):
+        if not isinstance(s, (ast.Raise, ast.Assert)) or any(fi._within(s, h) for h in handlers):
+            continue
+        worst = None
+        shown = ''
+        for atoms in _exit_conditions(fi, s, keep):
+            if atoms is None:
+                verdict, why = 'unknown', 'a condition on the way to it is a disjunction'
+            else:
+                classes, txt = [], []
+                free = set()
+                for a in atoms:
+                    q = _quantified(a)
+                    t = repr(a) if isinstance(a, Cmp) else ('' if a[2] else 'not ') + u(a[1])
+                    txt.append(t[:70])
+                    c = None
+                    if q is not None and q[0] == 'const':
+                        c = 'valid' if q[1] else 'invalid'
+                    elif q is not None:
+                        c = _relate(q, facts)
+                    if c is None and extra is not None:
+                        c = extra(a)
+                    if c is None:
+                        es = [a.lhs, a.rhs] if isinstance(a, Cmp) else [a[1]]
+                        free |= {x.id for e in es for x in ast.walk(e) if isinstance(x, ast.Name)} - P - set(_NEUTRAL) - set(_MODULE_ALIASES)
+                    classes.append(c)
+                shown = ' and '.join(txt)[:200] or 'unconditional'
+                if 'invalid' in classes:
+                    verdict, why = 'ok', ''
+                elif free or not classes:
+                    continue                      # reads values computed inside the function (or unconditional): not an argument check
+                elif None in classes:
+                    verdict, why = 'unknown', 'a condition is not related to a known fact about admissible inputs'
+                elif classes.count('partial') > 1:
+                    verdict, why = 'unknown', 'several conditions each hold for some admissible inputs'
+                else:
+                    verdict, why = 'bad', ''
+            rank = {'ok': 0, 'unknown': 1, 'bad': 2}[verdict]
+            if worst is None or rank > worst[0]:
+                worst = (rank, verdict, why, shown)
+        if worst is None:
+            continue
+        n += 1
+        kind = 'assert' if isinstance(s, ast.Assert) else 'raise'
+        con = '%s when %s' % (kind, worst[3])
+        if worst[1] == 'ok':
+            ck.ok(rule, mod, s, con, 'rejects only inputs outside the contract')
+        elif worst[1] == 'bad':
+            ck.bad(rule, mod, s, F, con, 'this %s is reached by admissible inputs: none of its conditions contradicts what holds for '
+                   'every input of the contract (%s), so valid data are rejected instead of being processed' % (
+                       kind, '; '.join(repr(f) for f in facts)[:240]))
+        else:
+            ck.missing(rule, 'argument check at %s (%s): %s' % (mod.loc(s), con[:140], worst[2]))
+    return n
+
+
+_INPUT_FACTS = {
+    # what holds for EVERY input inside the quantifier of C18 (positional parameters {0}, {1}, ...)
+    (EN, 'kl_divergence'): [('scalar', '{0}.shape', ast.Eq, '{1}.shape'), ('all', '{0}', ast.GtE, 0), ('all', '{1}', ast.GtE, 0)],
+    (MI, 'weighted_mi'): [('scalar', 'len({0}.shape)', ast.Eq, 2, True), ('scalar', 'len({1}.shape)', ast.Eq, 1, True),
+                          ('scalar', '{1}.shape[0]', ast.Eq, '{0}.shape[0]'), ('scalar', '{2}.shape[0]', ast.Eq, '{0}.shape[1]'),
+                          ('all', '{1}', ast.GtE, 0), ('scalar', '{1}.sum()', ast.NotEq, 0)],
+    (MI, 'channel_capacity_normalization'): [('all', '{1}', ast.GtE, 2, True), ('all', '{2}', ast.GtE, 2, True)],
+}
+
+
+def d10_rejections(ck):
+    rule = 'C18.D10.rejections'
+    for (rel, F), table in _INPUT_FACTS.items():
+        mod = ck.repo.mod(rel)
+        fn = mod.func(F)
+        ck.analysed(mod, fn)
+        ps = params(fn)
+        try:
+            facts = [_Fact(t[0], t[1].format(*ps), t[2], t[3].format(*ps) if isinstance(t[3], str) else t[3], *t[4:]) for t in table]
+        except IndexError:
+            ck.missing(rule, 'signature of %s' % F)
+            continue
+        _check_rejections(ck, rule, mod, fn, _fi(mod, fn), facts)
+
+
 # ---------------------------------------------------------------------------
 # D9 weighted estimator: ONE weight vector behind marginals and joints
 
@@ -2619,6 +3338,634 @@ def d9_weighted(ck):
         ck.missing(rn, 'normalisation of the weight vector of weighted_mi to unit sum (no definition `w / w.sum()` reaches the estimate)')
 
 
+def _flag_polarity(fi, st, flag):
+    """True / False: control reaches `st` only when the boolean parameter
+    `flag` is true / false; None: no dominating test of the flag."""
+    if fi.rd.defs_at(st, flag) != {'PARAM'}:
+        return None
+    pol = None
+    for a in _atoms(fi, st, stop=(flag,)):
+        if isinstance(a, Cmp):
+            if u(a.lhs) == flag and isinstance(a.rhs, ast.Constant) and type(a.rhs.value) is bool and \
+                    a.op in (ast.Is, ast.IsNot, ast.Eq, ast.NotEq):
+                pol = (a.rhs.value is True) == (a.op in (ast.Is, ast.Eq))
+        elif isinstance(a[1], ast.Name) and a[1].id == flag:
+            pol = a[2]
+    return pol
+
+
+def _normalize_flag(ck, rule, mod, fn, fi, F, call, default_index):
+    """channel_capacity_normalization is applied exactly when the caller asks
+    for it (`normalize`): with the test inverted the default call returns the
+    raw MI and normalize=False returns the normalised one, so the estimators
+    of the property (count-based vs weighted, both un-normalised) differ."""
+    ps = params(fn)
+    flag = 'normalize' if 'normalize' in ps else ps[default_index] if len(ps) > default_index else None
+    if flag is None:
+        ck.missing(rule, 'the `normalize` parameter of %s' % F)
+        return
+    pol = _flag_polarity(fi, fi.stmt(call), flag)
+    if pol is None:
+        ck.missing(rule, 'the test of `%s` that guards %s in %s' % (flag, u(call)[:60], F))
+    else:
+        ck.check(pol, rule, mod, call, F, '%s under `%s%s`' % (u(call)[:80], '' if pol else 'not ', flag),
+                 'normalised exactly when `%s` is true' % flag,
+                 'the channel-capacity normalisation runs when `%s` is FALSE and is skipped when it is true: the default call '
+                 'returns the un-normalised MI and %s(..., %s=False) a normalised one' % (flag, F, flag))
+
+
+def _weighted_term(ck, rule, mod, fn, fi, F):
+    """The summand of the mutual information is p * log(p / q) with the SAME
+    array p (the joint distribution) as multiplier and as numerator of the
+    ratio, q being the product of the marginals.  Located by role: the
+    logarithm, the quotient it is taken of, the product it enters - written
+    as one expression or as the in-place chain
+    divide(A, B, out=O); log(O, out=O); multiply(C, O, out=O)."""
+    found = []
+    for lg in calls_in(fn, 'np.log'):
+        if not lg.args or isinstance(lg.args[0], ast.Starred):
+            continue
+        st = fi.stmt(lg)
+        out, arg = kwarg(lg, 'out'), lg.args[0]
+        if isinstance(out, ast.Name) and isinstance(arg, ast.Name) and out.id == arg.id:
+            O = out.id
+            into = lambda c: (isinstance(kwarg(c, 'out'), ast.Name) and kwarg(c, 'out').id == O) or (
+                kwarg(c, 'out') is not None and isinstance(fi.stmt(c), ast.Assign) and fi.stmt(c).value is c and
+                any(isinstance(t, ast.Name) and t.id == O for t in fi.stmt(c).targets))
+            divs = [c for c in calls_in(fn, 'np.divide', 'np.true_divide') if len(c.args) >= 2 and into(c) and fi.cfg.dominates(fi.stmt(c), st)]
+            muls = [c for c in calls_in(fn, 'np.multiply') if len(c.args) >= 2 and isinstance(kwarg(c, 'out'), ast.Name) and
+                    kwarg(c, 'out').id == O and fi.cfg.dominates(st, fi.stmt(c)) and
+                    sum(1 for a in c.args[:2] if isinstance(a, ast.Name) and a.id == O) == 1]
+            if len(divs) == 1 and len(muls) == 1:
+                other = [a for a in muls[0].args[:2] if not (isinstance(a, ast.Name) and a.id == O)][0]
+                found.append((muls[0], other, divs[0].args[0], divs[0].args[1]))
+            continue
+        # one expression: <C> * np.log(<A> / <B>)
+        par = mod.parent.get(lg)
+        other = None
+        if isinstance(par, ast.BinOp) and isinstance(par.op, ast.Mult):
+            other = par.right if par.left is lg else par.left
+        elif isinstance(par, ast.Call) and call_name(par) == 'np.multiply' and len(par.args) >= 2 and any(a is lg for a in par.args[:2]):
+            other = par.args[1] if par.args[0] is lg else par.args[0]
+        r = canon(_xp(fi, arg, st))
+        a = b = None
+        if isinstance(r, ast.BinOp) and isinstance(r.op, ast.Div):
+            a, b = r.left, r.right
+        elif isinstance(r, ast.Call) and call_name(r) in ('np.divide', 'np.true_divide') and len(r.args) >= 2:
+            a, b = r.args[:2]
+        if other is not None and a is not None:
+            found.append((par, other, a, b))
+    if not found:
+        ck.missing(rule, 'the summand p * log(p / q) of weighted_mi (a logarithm of a quotient that is multiplied by an array)')
+        return
+    for node, mult, num, den in found:
+        st = fi.stmt(node)
+        tm, tn, td = (_cx(_xp(fi, x, st)) for x in (mult, num, den))
+        con = '%s * log(%s / %s)' % tuple(t if len(t) < 40 else t[:37] + '...' for t in (u(mult), u(num), u(den)))
+        if tm == tn and tm != td:
+            ck.ok(rule, mod, node, con, 'the multiplier of the logarithm is the numerator of the ratio: p log(p/q)')
+        elif tm == td and tm != tn:
+            ck.bad(rule, mod, node, F, con, 'the summand must be p * log(p / q) with the joint distribution p as multiplier AND numerator; '
+                   'here the multiplier is the DENOMINATOR of the ratio: p * log(q / p) = -p log(p/q), every term changes sign')
+        else:
+            ck.missing(rule, 'multiplier `%s` of the logarithm in weighted_mi is neither the numerator nor the denominator of the ratio' % u(mult)[:60])
+
+
+def d9_weighted_structure(ck):
+    """Structural clauses of weighted_mi that the one-weight-vector rule (D9)
+    does not cover: default state counts only when none are given, the
+    normalisation flag, the arguments of the normalisation."""
+    rule = 'C18.D9.weighted'
+    mod = ck.repo.mod(MI)
+    F = 'weighted_mi'
+    fn = mod.func(F)
+    ck.analysed(mod, fn)
+    P = params(fn)
+    if len(P) < 3:
+        ck.missing(rule, 'signature (features, weights, n_feature_states, ...) of weighted_mi')
+        return
+    X, W, NS = P[:3]
+    fi = _fi(mod, fn)
+    # ---- the default state count replaces only a missing argument
+    n = 0
+    for site in walk_local(fn):
+        if not isinstance(site, (ast.Assign, ast.AnnAssign)):
+            continue
+        v = fi.def_value(site, NS)
+        if v is None:
+            continue
+        ve = fi.expand(v, stop=(X, NS))
+        uses_max = any(isinstance(c, ast.Call) and isinstance(c.func, ast.Attribute) and c.func.attr == 'max' and
+                       _origin_of(fi, c.func.value, site) == X for c in ast.walk(ve))
+        if not uses_max:
+            continue
+        n += 1
+        gs = [a.op is ast.Is for a in _atoms(fi, site, stop=(X, NS))
+              if isinstance(a, Cmp) and a.op in (ast.Is, ast.IsNot) and u(a.lhs) == NS and _is_const(a.rhs, None)]
+        ck.check(bool(gs) and all(gs), rule + '.defaults', mod, site, F, u(site)[:120],
+                 'the default state counts are computed only when %s is None' % NS,
+                 'the default state counts (largest id + 1) must replace `%s` only when it is None; here they are computed %s, so a '
+                 'caller-supplied vector is overwritten%s' % (
+                     NS, 'when it is NOT None' if gs else 'unconditionally',
+                     ' and the None of the default call reaches the code that expects an array' if gs else ''))
+    if n == 0:
+        ck.missing(rule + '.defaults', 'default `%s` = largest id of `%s` + 1 in weighted_mi' % (NS, X))
+    _weighted_term(ck, rule + '.term', mod, fn, fi, F)
+    # ---- normalisation: flag and arguments
+    cc = [c for c in calls_in(fn) if (call_name(c) or '').split('.')[-1] == 'channel_capacity_normalization']
+    if len(cc) != 1 or len(cc[0].args) != 3 or cc[0].keywords or any(isinstance(a, ast.Starred) for a in cc[0].args):
+        ck.missing(rule + '.ccn', 'one call channel_capacity_normalization(mi, n, n) in weighted_mi')
+        return
+    c = cc[0]
+    st = fi.stmt(c)
+    _normalize_flag(ck, rule + '.ccn', mod, fn, fi, F, c, 3)
+    held = [(_passthrough(a).id if _passthrough(a) is not None else None) for a in c.args]
+    # the state-count vector is whatever the local of that name holds (argument or default); the MI matrix is not it
+    con = u(c)[:120]
+    if held[0] in (NS, X, W) or any(h is not None and h in (X, W, held[0]) for h in held[1:]):
+        ck.bad(rule + '.ccn', mod, c, F, con,
+               'channel_capacity_normalization(mi, n_x, n_y) must receive the MI matrix first and the state counts `%s` for both '
+               'sides (weighted_mi compares the features with themselves); it receives (%s)' % (NS, ', '.join(str(h) for h in held)))
+    elif held[1] == NS and held[2] == NS and held[0] is not None:
+        ck.ok(rule + '.ccn', mod, c, con, 'called as (mi, n_states, n_states): both sides of the matrix are the same features')
+    else:
+        ck.missing(rule + '.ccn', 'arguments of %s are not recognised as (MI matrix, %s, %s)' % (con, NS, NS))
+
+
+# ---- symbolic shapes of the weighted estimator ------------------------------------------------
+
+_SUNK = ('unk',)
+_DIM_NAMES = {'T': 'observations', 'F': 'features', 'S': 'states', 'K': 'state pairs'}
+
+
+class _Shapes:
+    """Abstract interpretation of weighted_mi over SYMBOLIC array shapes: the
+    extents T (observations), F (features), S (states), K (pairs of states)
+    are independent of each other inside the quantifier (any number of
+    frames, features and states), so two axes can be combined element-wise /
+    contracted by a matrix product / indexed by a loop variable only if they
+    carry the same symbol (or one is a unit axis).  Values:
+      ('arr', dims, elem)   dims of symbols, ints or None (unknown); elem = what the cells hold ('ids', 'count', an index kind) or None
+      ('int', sym)          an integer equal to the extent `sym`
+      ('idx', sym)          an integer that indexes an axis of extent `sym`
+      ('seq', elem, sym)    a list / iterable of `elem` values, `sym` long
+      ('tup', [values])     a tuple
+      ('maxid',)            the largest state id
+      ('unk',)              anything else
+    A conflict of two KNOWN symbols is a recognised wrong content; anything
+    the table does not know evaluates to unknown and can never produce a
+    conflict.  Nothing of the analysed code is executed."""
+
+    def __init__(self):
+        self.problems = []
+        self.loops = []
+        self.returns = []
+
+    def problem(self, node, msg):
+        if not any(n is node and m == msg for n, m in self.problems):
+            self.problems.append((node, msg))
+
+    # -- helpers
+    @staticmethod
+    def arr(dims, elem=None):
+        return ('arr', tuple(dims), elem)
+
+    def bdim(self, a, b, node, what):
+        if a == b:
+            return a
+        if a == 1:
+            return b
+        if b == 1:
+            return a
+        if a is None or b is None:
+            return None
+        if isinstance(a, str) and isinstance(b, str):
+            self.problem(node, '%s combines an axis over the %s with an axis over the %s' % (what, _DIM_NAMES[a], _DIM_NAMES[b]))
+        return None
+
+    def broadcast(self, x, y, node, what='an element-wise operation'):
+        if x[0] != 'arr' or y[0] != 'arr':
+            ax = x if x[0] == 'arr' else y if y[0] == 'arr' else None
+            other = y if ax is x else x
+            if ax is not None and other[0] in ('int', 'idx', 'const', 'maxid', 'scalar'):
+                return self.arr(ax[1])
+            return _SUNK
+        a, b = list(x[1]), list(y[1])
+        n = max(len(a), len(b))
+        a, b = [1] * (n - len(a)) + a, [1] * (n - len(b)) + b
+        return self.arr([self.bdim(p, q, node, what) for p, q in zip(a, b)])
+
+    def length(self, v):
+        if v[0] == 'arr' and v[1]:
+            return v[1][0]
+        if v[0] == 'seq':
+            return v[2]
+        if v[0] == 'tup':
+            return len(v[1])
+        return None
+
+    def element(self, v):
+        if v[0] == 'seq':
+            return v[1]
+        if v[0] == 'arr' and v[1]:
+            if len(v[1]) == 1:
+                return ('idx', v[2]) if isinstance(v[2], str) and v[2] in _DIM_NAMES else ('scalar',)
+            return self.arr(v[1][1:], v[2])
+        return _SUNK
+
+    def bind(self, target, v, env):
+        if isinstance(target, ast.Name):
+            env[target.id] = v
+        elif isinstance(target, (ast.Tuple, ast.List)):
+            vs = v[1] if v[0] == 'tup' and len(v[1]) == len(target.elts) else [_SUNK] * len(target.elts)
+            for t, x in zip(target.elts, vs):
+                self.bind(t, x, env)
+
+    def dims_of(self, v):
+        """dims named by a shape argument: an int value or a tuple of them."""
+        one = lambda x: x[1] if x[0] == 'int' else x[1] if x[0] == 'const' and type(x[1]) is int else None
+        if v[0] == 'tup':
+            return [one(x) for x in v[1]]
+        if v[0] in ('int', 'const'):
+            return [one(v)]
+        return None
+
+    # -- expressions
+    def ev(self, e, env):
+        m = getattr(self, 'ev_' + type(e).__name__, None)
+        return m(e, env) if m is not None else _SUNK
+
+    def ev_Name(self, e, env):
+        return env.get(e.id, _SUNK)
+
+    def ev_Constant(self, e, env):
+        return ('const', e.value)
+
+    def ev_Tuple(self, e, env):
+        return ('tup', [self.ev(x, env) for x in e.elts])
+
+    ev_List = ev_Tuple
+
+    def ev_IfExp(self, e, env):
+        self.ev(e.test, env)
+        a, b = self.ev(e.body, env), self.ev(e.orelse, env)
+        return a if a == b else _SUNK
+
+    def ev_UnaryOp(self, e, env):
+        v = self.ev(e.operand, env)
+        return v if v[0] == 'arr' else _SUNK
+
+    def ev_Attribute(self, e, env):
+        v = self.ev(e.value, env)
+        if v[0] == 'arr':
+            if e.attr == 'T':
+                return self.arr(reversed(v[1]), v[2])
+            if e.attr == 'shape':
+                return ('tup', [('int', d) if isinstance(d, str) else ('const', d) if isinstance(d, int) else _SUNK for d in v[1]])
+        return _SUNK
+
+    def ev_BinOp(self, e, env):
+        a, b = self.ev(e.left, env), self.ev(e.right, env)
+        if isinstance(e.op, ast.MatMult):
+            return self.matmul(a, b, e)
+        if a[0] == 'maxid' and isinstance(e.op, ast.Add) and b == ('const', 1) or b[0] == 'maxid' and isinstance(e.op, ast.Add) and a == ('const', 1):
+            return ('int', 'S')
+        if a[0] == 'arr' or b[0] == 'arr':
+            return self.broadcast(a, b, e)
+        return _SUNK
+
+    def ev_Compare(self, e, env):
+        if len(e.ops) != 1:
+            return _SUNK
+        a, b = self.ev(e.left, env), self.ev(e.comparators[0], env)
+        for x, y in ((a, b), (b, a)):
+            if x[0] == 'arr' and x[2] == 'ids' and y == ('idx', 'S') and not isinstance(e.ops[0], ast.Eq):
+                self.problem(e, 'the indicator of a state is `ids == state`; `%s` marks the observations that are NOT in that state '
+                             '(or orders the ids)' % u(e))
+        if a[0] == 'arr' or b[0] == 'arr':
+            r = self.broadcast(a, b, e, 'a comparison')
+            return self.arr(r[1], 'bool') if r[0] == 'arr' else r
+        return _SUNK
+
+    def ev_Subscript(self, e, env):
+        v = self.ev(e.value, env)
+        items = _index_items(e.slice)
+        if v[0] == 'tup':
+            k = const_value(e.slice)
+            if type(k) is int and -len(v[1]) <= k < len(v[1]):
+                return v[1][k]
+            if isinstance(e.slice, ast.Slice) and e.slice.step is None:
+                lo = 0 if e.slice.lower is None else const_value(e.slice.lower)
+                hi = len(v[1]) if e.slice.upper is None else const_value(e.slice.upper)
+                if type(lo) is int and type(hi) is int:
+                    return ('tup', v[1][lo:hi])
+            return _SUNK
+        if v[0] == 'seq':
+            return v[1] if len(items) == 1 and not isinstance(items[0], ast.Slice) else _SUNK
+        if v[0] != 'arr':
+            for it in items:
+                self.ev(it, env) if not isinstance(it, ast.Slice) else None
+            return _SUNK
+        dims = list(v[1])
+        real = [it for it in items if not _is_const(it, None) and not _is_const(it, Ellipsis)]
+        if len(real) > len(dims) or sum(1 for it in items if _is_const(it, Ellipsis)) > 1:
+            return _SUNK
+        out, pos = [], 0
+        for it in items:
+            if _is_const(it, Ellipsis):
+                fill = len(dims) - len(real)
+                out += dims[pos:pos + fill]
+                pos += fill
+            elif _is_const(it, None):
+                out.append(1)
+            elif isinstance(it, ast.Slice):
+                out.append(dims[pos] if _full_slice(it) else None)
+                pos += 1
+            else:
+                iv = self.ev(it, env)
+                d = dims[pos]
+                if iv[0] == 'idx' and isinstance(iv[1], str) and isinstance(d, str) and iv[1] != d:
+                    self.problem(e, '`%s` indexes the axis over the %s (axis %d of `%s`) with an index that runs over the %s' % (
+                        u(e)[:60], _DIM_NAMES[d], pos, u(e.value)[:40], _DIM_NAMES[iv[1]]))
+                if iv[0] == 'arr':
+                    return _SUNK              # fancy / mask indexing
+                pos += 1
+        out += dims[pos:]
+        return self.arr(out, v[2])
+
+    def comprehension(self, e, env):
+        if len(e.generators) != 1 or e.generators[0].is_async:
+            return _SUNK
+        g = e.generators[0]
+        it = self.ev(g.iter, env)
+        inner = dict(env)
+        self.bind(g.target, self.element(it), inner)
+        for c in g.ifs:
+            self.ev(c, inner)
+        elem = self.ev(e.elt, inner)
+        return ('seq', elem, None if g.ifs else self.length(it))
+
+    def ev_ListComp(self, e, env):
+        return self.comprehension(e, env)
+
+    ev_GeneratorExp = ev_ListComp
+
+    def matmul(self, a, b, node):
+        if a[0] != 'arr' or b[0] != 'arr' or len(a[1]) != 2 or len(b[1]) != 2:
+            return _SUNK
+        (n, m), (m2, p) = a[1], b[1]
+        if isinstance(m, str) and isinstance(m2, str) and m != m2:
+            self.problem(node, 'the matrix product contracts an axis over the %s with an axis over the %s (operand shapes (%s) and (%s)): '
+                         'the joint weight of a pair of features is the sum over the OBSERVATIONS of weight x indicator x indicator' % (
+                             _DIM_NAMES[m], _DIM_NAMES[m2], ', '.join(map(str, a[1])), ', '.join(map(str, b[1]))))
+        return self.arr([n, p])
+
+    def stack(self, v, how):
+        if v[0] == 'tup':
+            elems, n = v[1], len(v[1])
+            if not elems or any(x != elems[0] for x in elems):
+                return _SUNK
+            el = elems[0]
+        elif v[0] == 'seq':
+            el, n = v[1], v[2]
+        else:
+            return _SUNK
+        if el is None:
+            return _SUNK
+        if el[0] == 'tup' and how == 'array':
+            inner = self.stack(el, 'array')
+            return self.arr((n,) + inner[1], inner[2]) if inner[0] == 'arr' else _SUNK
+        if el[0] in ('idx', 'int', 'const', 'scalar') and how == 'array':
+            return self.arr((n,), el[1] if el[0] == 'idx' else None)
+        if el[0] != 'arr':
+            return _SUNK
+        d = el[1]
+        if how == 'array':
+            return self.arr((n,) + d, el[2])
+        if how == 'vstack':
+            return self.arr((n,) + d, el[2]) if len(d) == 1 else self.arr((None,) + d[1:], el[2]) if d else _SUNK
+        if how == 'dstack':
+            return self.arr(d + (n,), el[2]) if len(d) == 2 else self.arr((1,) + d + (n,), el[2]) if len(d) == 1 else _SUNK
+        return _SUNK
+
+    def ev_Call(self, e, env):
+        cn = (call_name(e) or '').replace('numpy.', 'np.')
+        if any(isinstance(a, ast.Starred) for a in e.args) or any(k.arg is None for k in e.keywords):
+            for a in e.args:
+                self.ev(a.value if isinstance(a, ast.Starred) else a, env)
+            return _SUNK
+        args = [self.ev(a, env) for a in e.args]
+        kw = {k.arg: self.ev(k.value, env) for k in e.keywords}
+        a0 = args[0] if args else _SUNK
+        last = cn.split('.')[-1]
+        if isinstance(e.func, ast.Attribute) and cn.split('.')[0] not in _MODULE_ALIASES + ('itertools',):
+            recv = self.ev(e.func.value, env)
+            m = e.func.attr
+            if m == 'append' and isinstance(e.func.value, ast.Name) and recv[0] == 'seq' and len(args) == 1:
+                env[e.func.value.id] = ('seq', args[0] if recv[1] in (None, args[0]) else _SUNK, self.loops[-1] if self.loops else None)
+                return _SUNK
+            if recv[0] == 'arr':
+                if m in ('copy', 'astype', 'clip', 'cumsum', 'round'):
+                    return recv
+                if m == 'max' and not args and not kw:
+                    return ('int', 'S') if recv[2] == 'count' else ('maxid',) if recv[2] == 'ids' else ('scalar',)
+                if m in ('sum', 'mean', 'any', 'all', 'max', 'min', 'prod'):
+                    ax = kw.get('axis', args[0] if args else ('const', None))
+                    if ax == ('const', None):
+                        return ('scalar',)
+                    k = ax[1] if ax[0] == 'const' and type(ax[1]) is int else None
+                    n = len(recv[1])
+                    if k is None or kw.get('keepdims', ('const', False)) != ('const', False):
+                        return _SUNK
+                    if not -n <= k < n:
+                        self.problem(e, '`%s` reduces axis %d of an array with %d axes' % (u(e)[:60], k, n))
+                        return _SUNK
+                    return self.arr([d for i, d in enumerate(recv[1]) if i != k % n])
+                if m == 'transpose' and not args:
+                    return self.arr(reversed(recv[1]), recv[2])
+            return _SUNK
+        if cn == 'len' and len(args) == 1:
+            d = self.length(a0)
+            return ('int', d) if isinstance(d, str) else ('const', d) if isinstance(d, int) else _SUNK
+        if cn == 'int' and len(args) == 1:
+            return a0 if a0[0] in ('int', 'maxid', 'idx') else _SUNK
+        if cn == 'max' and len(args) == 1:
+            return ('int', 'S') if a0[0] == 'arr' and a0[2] == 'count' else _SUNK
+        if cn == 'range' and len(args) == 1:
+            return ('seq', ('idx', a0[1]), a0[1]) if a0[0] == 'int' else _SUNK
+        if cn == 'np.arange' and len(args) == 1:
+            return self.arr((a0[1],), a0[1]) if a0[0] == 'int' else _SUNK
+        if cn in ('list', 'tuple', 'iter') and len(args) == 1:
+            if a0[0] == 'arr':
+                return ('seq', self.element(a0), self.length(a0))
+            return a0 if a0[0] in ('seq', 'tup') else _SUNK
+        if cn in ('itertools.product', 'product') and len(args) == 2 and not kw:
+            el = [self.element(x) for x in args]
+            both = all(x == ('idx', 'S') for x in el)
+            return ('seq', ('tup', el), 'K' if both else None)
+        if cn in ('enumerate',) and len(args) == 1:
+            return ('seq', ('tup', [('idx', self.length(a0)) if isinstance(self.length(a0), str) else _SUNK, self.element(a0)]), self.length(a0))
+        if cn == 'zip' and args:
+            return ('seq', ('tup', [self.element(x) for x in args]), self.length(a0))
+        if cn == 'np.bincount' and args:
+            w = kw.get('weights', args[1] if len(args) > 1 else None)
+            ml = kw.get('minlength', args[2] if len(args) > 2 else None)
+            if a0[0] == 'arr' and w is not None and w[0] == 'arr' and len(a0[1]) == 1 and len(w[1]) == 1:
+                p, q = a0[1][0], w[1][0]
+                if isinstance(p, str) and isinstance(q, str) and p != q:
+                    self.problem(e, 'np.bincount counts a vector over the %s with weights over the %s: a weighted marginal adds the weight '
+                                 'of every OBSERVATION to the state of one feature in that observation' % (_DIM_NAMES[p], _DIM_NAMES[q]))
+            return self.arr((ml[1],)) if ml is not None and ml[0] == 'int' else self.arr((None,))
+        if cn in ('np.vstack', 'np.dstack') and len(args) == 1:
+            return self.stack(a0, last)
+        if cn in ('np.array', 'np.asarray', 'np.asanyarray', 'np.ascontiguousarray', 'np.copy', 'np.stack') and args:
+            if a0[0] == 'arr':
+                return a0
+            if cn == 'np.stack' and (len(args) > 1 or 'axis' in kw):
+                return _SUNK
+            return self.stack(a0, 'array')
+        if cn == 'np.meshgrid' and len(args) == 2:
+            ix = kw.get('indexing', ('const', 'xy'))
+            if all(x[0] == 'arr' and len(x[1]) == 1 for x in args) and ix in (('const', 'xy'), ('const', 'ij')):
+                d = (args[1][1][0], args[0][1][0]) if ix[1] == 'xy' else (args[0][1][0], args[1][1][0])
+                return ('tup', [self.arr(d), self.arr(d)])
+            return _SUNK
+        if cn in ('np.matmul', 'np.dot') and len(args) == 2 and 'out' not in kw:
+            return self.matmul(args[0], args[1], e)
+        if cn in ('np.zeros', 'np.ones', 'np.empty', 'np.full') and args:
+            d = self.dims_of(kw.get('shape', a0))
+            fill = args[1] if cn == 'np.full' and len(args) > 1 else kw.get('fill_value')
+            return self.arr(d, 'count' if fill == ('int', 'S') else None) if d is not None else _SUNK
+        if cn in ('np.zeros_like', 'np.ones_like', 'np.empty_like', 'np.full_like') and args:
+            return self.arr(a0[1]) if a0[0] == 'arr' else _SUNK
+        if cn in ('np.divide', 'np.true_divide', 'np.multiply', 'np.add', 'np.subtract', 'np.fmin', 'np.fmax', 'np.minimum', 'np.maximum') \
+                and len(args) == 2:
+            r = self.broadcast(args[0], args[1], e, cn)
+            for extra in ('where', 'out'):
+                if extra in kw and kw[extra][0] == 'arr' and r[0] == 'arr':
+                    r = self.broadcast(r, kw[extra], e, '%s (%s=)' % (cn, extra))
+            return r
+        if cn in ('np.log', 'np.log2', 'np.exp', 'np.abs', 'np.sqrt', 'np.isnan', 'np.isinf', 'np.isfinite', 'np.clip', 'np.nan_to_num',
+                  'np.negative', 'np.logical_not') and args:
+            r = a0
+            for extra in ('where', 'out'):
+                if extra in kw and kw[extra][0] == 'arr' and r[0] == 'arr':
+                    r = self.broadcast(r, kw[extra], e, '%s (%s=)' % (cn, extra))
+            return r if r[0] == 'arr' else _SUNK
+        if cn in ('np.linalg.norm', 'float') and args:
+            return ('scalar',)
+        if last == 'channel_capacity_normalization' and len(args) == 3:
+            mi = a0
+            if mi[0] == 'arr' and len(mi[1]) == 2:
+                for k, nv in enumerate(args[1:]):
+                    if nv[0] == 'arr' and len(nv[1]) == 1 and isinstance(nv[1][0], str) and isinstance(mi[1][k], str) and nv[1][0] != mi[1][k]:
+                        self.problem(e, 'axis %d of the matrix passed to channel_capacity_normalization runs over the %s, its state-count '
+                                     'vector over the %s' % (k, _DIM_NAMES[mi[1][k]], _DIM_NAMES[nv[1][0]]))
+            elif mi[0] == 'arr' and len(mi[1]) == 1 and mi[2] == 'count':
+                self.problem(e, 'the state-count vector is passed to channel_capacity_normalization in the place of the MI matrix')
+            return mi if mi[0] == 'arr' else _SUNK
+        return _SUNK
+
+    # -- statements
+    def join(self, envs):
+        envs = [x for x in envs if x is not None]
+        if not envs:
+            return None
+        out = {}
+        for k in set().union(*[set(x) for x in envs]):
+            vs = [x.get(k, _SUNK) for x in envs]
+            out[k] = vs[0] if all(v == vs[0] for v in vs) else _SUNK
+        return out
+
+    def run(self, stmts, env):
+        """-> env after the statements, None when every path ends (return / raise)."""
+        for s in stmts:
+            if env is None:
+                return None
+            if isinstance(s, ast.Assign):
+                v = self.ev(s.value, env)
+                for t in s.targets:
+                    if isinstance(t, ast.Subscript):
+                        self.ev(t, env)
+                    else:
+                        self.bind(t, v, env)
+            elif isinstance(s, ast.AnnAssign) and s.value is not None:
+                self.bind(s.target, self.ev(s.value, env), env)
+            elif isinstance(s, ast.AugAssign):
+                v = self.ev(ast.BinOp(left=ast.Name(id=s.target.id, ctx=ast.Load()), op=s.op, right=s.value), env) \
+                    if isinstance(s.target, ast.Name) else self.ev(s.value, env)
+                if isinstance(s.target, ast.Name):
+                    env[s.target.id] = v
+            elif isinstance(s, ast.Expr):
+                self.ev(s.value, env)
+            elif isinstance(s, ast.Assert):
+                self.ev(s.test, env)
+            elif isinstance(s, ast.If):
+                self.ev(s.test, env)
+                env = self.join([self.run(s.body, dict(env)), self.run(s.orelse, dict(env))])
+            elif isinstance(s, (ast.For, ast.AsyncFor)):
+                it = self.ev(s.iter, env)
+                self.bind(s.target, self.element(it), env)
+                self.loops.append(self.length(it))
+                after = self.run(s.body, dict(env))
+                self.loops.pop()
+                env = self.join([env, after]) if after is not None else env
+                if s.orelse:
+                    env = self.run(s.orelse, env)
+            elif isinstance(s, (ast.With, ast.AsyncWith)):
+                env = self.run(s.body, env)
+            elif isinstance(s, ast.Return):
+                self.returns.append((s, self.ev(s.value, env) if s.value is not None else _SUNK))
+                return None
+            elif isinstance(s, ast.Raise):
+                return None
+            elif isinstance(s, (ast.Pass, ast.Import, ast.ImportFrom, ast.Global, ast.Nonlocal, ast.Continue, ast.Break)):
+                pass
+            else:
+                # a statement the model does not follow: whatever it binds is unknown from here on
+                for n in ast.walk(s):
+                    if isinstance(n, ast.Name) and isinstance(n.ctx, ast.Store):
+                        env[n.id] = _SUNK
+        return env
+
+
+def d9_weighted_shapes(ck):
+    rule = 'C18.D9.weighted.axes'
+    mod = ck.repo.mod(MI)
+    F = 'weighted_mi'
+    fn = mod.func(F)
+    ck.analysed(mod, fn)
+    P = params(fn)
+    if len(P) < 3:
+        ck.missing(rule, 'signature (features, weights, n_feature_states, ...) of weighted_mi')
+        return
+    sh = _Shapes()
+    env = {P[0]: sh.arr(('T', 'F'), 'ids'), P[1]: sh.arr(('T',)), P[2]: sh.arr(('F',), 'count')}
+    for a, d in zip(reversed(fn.args.args), reversed(fn.args.defaults)):
+        if a.arg not in env and isinstance(d, ast.Constant):
+            env[a.arg] = ('const', d.value) if not isinstance(d.value, bool) else _SUNK
+    try:
+        sh.run(fn.body, env)
+    except RecursionError:
+        ck.missing(rule, 'symbolic shapes of weighted_mi (expression too deep)')
+        return
+    for node, msg in sh.problems:
+        ck.bad(rule, mod, node, F, u(node)[:120], msg + '. Observations, features and states are independent extents: for unequal '
+               'extents this is a shape / index error, for equal ones a silently wrong estimate')
+    if sh.problems:
+        return
+    if not sh.returns:
+        ck.missing(rule, 'return value of weighted_mi')
+    for s, v in sh.returns:
+        if v[0] == 'arr' and all(d is not None for d in v[1]):
+            ck.check(v[1] == ('F', 'F'), rule, mod, s, F, 'returns an array over (%s)' % ', '.join(_DIM_NAMES.get(d, str(d)) for d in v[1]),
+                     'the result is a features x features matrix',
+                     'weighted_mi must return one MI value per PAIR OF FEATURES; the returned array runs over (%s) - the terms must be '
+                     'summed over the axis that enumerates the state pairs' % ', '.join(_DIM_NAMES.get(d, str(d)) for d in v[1]))
+        else:
+            ck.missing(rule, 'symbolic shape of the value weighted_mi returns (%s)' % (v,))
+
+
 def ck_has_bad(ck, rule):
     return any(o.get('rule') == rule and o.get('status') in ('VIOLATED', 'KNOWN-FINDING') for o in ck.obligations)
 
@@ -2631,11 +3978,16 @@ def check(ck):
     for rel in (MI, EN):
         n += check_masked_ufuncs(ck, 'C18.D5.masked-ufunc', ck.repo.mod(rel))
     ck.floor('C18.D5.masked-ufunc', n, 6, 'masked ufunc calls in info_theory')
+    d5_mask_content(ck)
     d6_joint_counts(ck, d6_ids_preserved(ck))
     d6_default_width(ck)
+    d6_unit_axis(ck)
     d5_out_dtype(ck)
     d7_entropy(ck)
     d9_weighted(ck)
+    d9_weighted_structure(ck)
+    d9_weighted_shapes(ck)
+    d10_rejections(ck)
     check_no_arg_mutation(ck, 'C18.D8.inputs-unmodified', [
         (MI, 'joint_counts'), (MI, 'mutual_information'), (MI, 'mi_matrix'),
         (MI, 'weighted_mi'), (MI, 'channel_capacity_normalization'),
